@@ -17,6 +17,7 @@ package bfe_http2
 import (
 	"bytes"
 	"fmt"
+	"io"
 	"net"
 	"sort"
 	"strings"
@@ -57,12 +58,32 @@ type VerifC35 struct {
 	held     *frameWriteMsg         // the handler frame in flight
 	rstCodes []ErrCode              // RST_STREAM frames written so far (by the harness acting as writer)
 	acks       int                  // SETTINGS ACK frames written
+	entered    chan uint32          // the scripted handler reports the stream it was started for
+	chunk      int                  // the frame reader gets at most this many bytes per Read (0 = no limit)
+	wonly      bool                 // write-only client (real serve loop mode): frames are only serialised to cf
 	split      bool                 // next Headers call sends HEADERS + CONTINUATION
 	readerGone bool                 // the readFrames goroutine has returned (terminal read error)
 }
 
-func NewVerifC35(maxStreams uint32) *VerifC35 {
-	v := &VerifC35{rd: new(bytes.Buffer), cmds: map[uint32]chan string{}, running: map[uint32]bool{}}
+func NewVerifC35(maxStreams uint32) *VerifC35 { return NewVerifC35Chunked(maxStreams, 0) }
+
+// verifC35Reader hands the connection's Framer at most chunk bytes per Read (segmentation of the input).
+type verifC35Reader struct{ v *VerifC35 }
+
+func (r verifC35Reader) Read(p []byte) (int, error) {
+	if c := r.v.chunk; c > 0 && len(p) > c {
+		p = p[:c]
+	}
+	return r.v.rd.Read(p)
+}
+
+// VerifC35ConnHeaders is the server's list of connection-specific request header names (checkValidHTTP2Request).
+func VerifC35ConnHeaders() []string { return append([]string(nil), connHeaders...) }
+
+// NewVerifC35Chunked is NewVerifC35 with a frame reader that sees the client's bytes in pieces of at most chunk bytes.
+func NewVerifC35Chunked(maxStreams uint32, chunk int) *VerifC35 {
+	v := &VerifC35{rd: new(bytes.Buffer), cmds: map[uint32]chan string{}, running: map[uint32]bool{}, chunk: chunk,
+		entered: make(chan uint32, 4096)}
 	s := &Server{MaxConcurrentStreams: maxStreams}
 	hs := &http.Server{ReadTimeout: time.Hour, WriteTimeout: time.Hour, GracefulShutdownTimeout: time.Hour}
 	c := verifC35Conn{}
@@ -94,7 +115,7 @@ func NewVerifC35(maxStreams uint32) *VerifC35 {
 	sc.flow.add(initialWindowSize)
 	sc.inflow.add(initialWindowSize)
 	sc.hpackEncoder = hpack.NewEncoder(&sc.headerWriteBuf)
-	fr := NewFramer(sc.bw, v.rd)
+	fr := NewFramer(sc.bw, verifC35Reader{v})
 	fr.ReadMetaHeaders = hpack.NewDecoder(initialHeaderTableSize, nil)
 	fr.MaxHeaderListSize = sc.maxHeaderListSize()
 	fr.MaxHeaderUriSize = sc.maxHeaderUriSize()
@@ -116,7 +137,15 @@ func NewVerifC35(maxStreams uint32) *VerifC35 {
 // handle is the http.Handler of every stream: it waits for the harness' command.
 func (v *VerifC35) handle(w http.ResponseWriter, r *http.Request) {
 	var id uint32
-	fmt.Sscanf(strings.TrimPrefix(r.URL.Path, "/"), "%d", &id)
+	if r.Method == "CONNECT" {
+		fmt.Sscanf(r.Host, "h:%d", &id)
+	} else {
+		fmt.Sscanf(strings.TrimPrefix(r.URL.Path, "/"), "%d", &id)
+	}
+	select {
+	case v.entered <- id:
+	default:
+	}
 	v.mu.Lock()
 	ch := v.cmds[id]
 	v.mu.Unlock()
@@ -232,6 +261,10 @@ func (v *VerifC35) readAndProcess() bool {
 
 // client runs one client-frame event unless the frame reader is gone.
 func (v *VerifC35) client(write func()) string {
+	if v.wonly {
+		write()
+		return ""
+	}
 	if v.readerGone {
 		return "gone"
 	}
@@ -251,6 +284,9 @@ func (v *VerifC35) Settings(ack bool, iws int64) string {
 		v.cf.WriteSettings()
 	default:
 		v.cf.WriteSettings(Setting{SettingInitialWindowSize, uint32(iws)})
+	}
+	if v.wonly {
+		return ""
 	}
 	// processFrameFromReader in two halves (both real code) so that a rejected SETTINGS can be told from an
 	// accepted one even when a GOAWAY is already under way and nothing new is sent.
@@ -284,6 +320,12 @@ func (v *VerifC35) Ping(id uint32, ack bool) string {
 		}
 		v.cf.WriteRawFrame(FramePing, fl, id, []byte{1, 2, 3, 4, 5, 6, 7, 8})
 	})
+}
+
+// PingWith sends a PING with the given opaque data (used by the real serve loop mode to tell its own
+// quiescence round trips from the script's PING events).
+func (v *VerifC35) PingWith(d [8]byte) string {
+	return v.client(func() { v.cf.WritePing(false, d) })
 }
 
 func (v *VerifC35) WindowUpdate(id, inc uint32) string {
@@ -322,29 +364,109 @@ func (v *VerifC35) Graceful() string {
 // Headers sends HEADERS (END_HEADERS) on stream id.  kind: "ok" a GET/POST request for path /<id>,
 // "cl<n>" the same with content-length n, "bad" a request without :method, "tr" a trailer block (no pseudo fields).
 func (v *VerifC35) Headers(id uint32, end bool, kind string) string {
+	if !v.wonly && (strings.HasPrefix(kind, "ch") || kind == "te" || kind == "te2") && (v.held != nil || v.otherQueues(0)) {
+		return "busy" // not sent: the 400 response needs an idle scheduler to stay deterministic (see HandlerBody)
+	}
+	if v.readerGone {
+		return "gone" // (before anything is HPACK-encoded for a frame that will not be sent)
+	}
 	v.hbuf.Reset()
 	w := func(k, val string) { v.henc.WriteField(hpack.HeaderField{Name: k, Value: val}) }
+	path := fmt.Sprintf("/%d", id)
+	m := "POST"
+	if end {
+		m = "GET"
+	}
+	auto400 := false // checkValidHTTP2Request will answer with the 400 handler
 	switch {
 	case kind == "tr":
 		w("x-trailer", "1")
-	case kind == "bad":
-		w(":path", fmt.Sprintf("/%d", id))
+	case kind == "bad" || kind == "nometh":
+		w(":path", path)
+		w(":scheme", "http")
+	case kind == "nopath":
+		w(":method", m)
+		w(":scheme", "http")
+	case kind == "scheme":
+		w(":method", m)
+		w(":path", path)
+		w(":scheme", "ftp")
+	case kind == "status": // a response pseudo header only
+		w(":status", "200")
+	case kind == "head": // HEAD: valid only with END_STREAM
+		w(":method", "HEAD")
+		w(":path", path)
+		w(":scheme", "http")
+	case kind == "badpath":
+		w(":method", m)
+		w(":path", "no-slash")
+		w(":scheme", "http")
+	case kind == "connect":
+		w(":method", "CONNECT")
+		w(":authority", fmt.Sprintf("h:%d", id))
+	case kind == "connectbad":
+		w(":method", "CONNECT")
+		w(":authority", fmt.Sprintf("h:%d", id))
+		w(":path", path)
+	case kind == "invupper": // framing-level stream errors (readMetaFrame)
+		w(":method", m)
+		w(":path", path)
+		w(":scheme", "http")
+		w("X-Upper", "1")
+	case kind == "invafter":
+		w(":method", m)
+		w("x-a", "1")
+		w(":path", path)
+		w(":scheme", "http")
+	case kind == "invunk":
+		w(":method", m)
+		w(":path", path)
+		w(":scheme", "http")
+		w(":foo", "1")
+	case kind == "invdup":
+		w(":method", m)
+		w(":method", m)
+		w(":path", path)
+		w(":scheme", "http")
+	case kind == "invval":
+		w(":method", m)
+		w(":path", path)
+		w(":scheme", "http")
+		w("x-a", "a\nb")
+	case kind == "invmix":
+		w(":method", m)
+		w(":status", "200")
+		w(":path", path)
 		w(":scheme", "http")
 	default:
-		m := "POST"
-		if end {
-			m = "GET"
-		}
 		w(":method", m)
-		w(":path", fmt.Sprintf("/%d", id))
+		w(":path", path)
 		w(":scheme", "http")
-		if strings.HasPrefix(kind, "cl") {
+		switch {
+		case strings.HasPrefix(kind, "cl"):
 			w("content-length", kind[2:])
+		case strings.HasPrefix(kind, "ch"): // the i-th connection-specific name of the server's own list
+			var i int
+			fmt.Sscanf(kind[2:], "%d", &i)
+			w(strings.ToLower(connHeaders[i%len(connHeaders)]), "x")
+			auto400 = true
+		case kind == "te":
+			w("te", "gzip")
+			auto400 = true
+		case kind == "te2":
+			w("te", "trailers")
+			w("te", "trailers")
+			auto400 = true
+		case kind == "teok":
+			w("te", "trailers")
+		case kind == "teempty":
+			w("te", "")
 		}
 	}
 	created := false
 	v.mu.Lock()
-	if _, live := v.sc.streams[id]; !live && !v.running[id] {
+	if v.wonly {
+	} else if _, live := v.sc.streams[id]; !live && !v.running[id] {
 		v.cmds[id] = make(chan string, 1) // in place before the handler goroutine can look it up
 		v.running[id] = true
 		created = true
@@ -359,12 +481,38 @@ func (v *VerifC35) Headers(id uint32, end bool, kind string) string {
 			v.cf.WriteHeaders(HeadersFrameParam{StreamID: id, BlockFragment: b, EndStream: end, EndHeaders: true})
 		}
 	})
+	if v.wonly {
+		return ""
+	}
 	if created {
 		if _, live := v.sc.streams[id]; !live || res != "ok" { // no handler goroutine was started (rejected, or ignored while inGoAway)
 			v.ForgetHandler(id)
+			return res
 		}
 	}
-	return res
+	if !created || !auto400 {
+		return res
+	}
+	// Either the 400 handler answers (its frames arrive on wantWriteFrameCh) or the scripted handler was started.
+	for i := 0; i < 2 && res == "ok"; i++ {
+		var wm frameWriteMsg
+	wait:
+		for {
+			select {
+			case wm = <-v.sc.wantWriteFrameCh:
+				break wait
+			case e := <-v.entered:
+				if e == id {
+					return "ok" // served by the normal handler, which now waits for its command
+				}
+			case <-time.After(30 * time.Second):
+				return "HANG"
+			}
+		}
+		v.ForgetHandler(id)
+		res = v.outcome(func() bool { v.sc.writeFrame(wm); return true })
+	}
+	return v.afterHandlerFrames(id, res)
 }
 
 func (v *VerifC35) Data(id uint32, n int, end bool) string {
@@ -406,7 +554,7 @@ func (v *VerifC35) HandlerBody(id uint32, n int) string {
 		var wm frameWriteMsg
 		select {
 		case wm = <-v.sc.wantWriteFrameCh:
-		case <-time.After(10 * time.Second):
+		case <-time.After(30 * time.Second):
 			return "HANG"
 		}
 		res = v.outcome(func() bool { v.sc.writeFrame(wm); return true })
@@ -432,6 +580,23 @@ func (v *VerifC35) afterHandlerFrames(id uint32, r string) string {
 
 func (v *VerifC35) Rst(id uint32) string {
 	return v.client(func() { v.cf.WriteRSTStream(id, ErrCodeCancel) })
+}
+
+// PushPromise sends a PUSH_PROMISE frame from the client.
+func (v *VerifC35) PushPromise(id uint32) string {
+	return v.client(func() {
+		v.hbuf.Reset()
+		v.henc.WriteField(hpack.HeaderField{Name: ":method", Value: "GET"})
+		v.cf.WritePushPromise(PushPromiseParam{StreamID: id, PromiseID: 2, BlockFragment: v.hbuf.Bytes(), EndHeaders: true})
+	})
+}
+
+// Timeout is the serve loop's timeoutEventCh case: a read/write stream timer fired for stream id.
+func (v *VerifC35) Timeout(id uint32) string {
+	return v.outcome(func() bool {
+		v.sc.handleTimeout(timeoutEventElem{tag: ReadStreamTag, streamID: id})
+		return true
+	})
 }
 
 // HeadersSplit is Headers(id, end, "ok") sent as HEADERS + CONTINUATION.
@@ -493,15 +658,17 @@ func (v *VerifC35) ForgetHandler(id uint32) {
 
 // State renders maxStreamID, curOpenStreams, the connection send window, SETTINGS_INITIAL_WINDOW_SIZE, the
 // live streams with their send windows, and the number of frames queued per stream in the write scheduler.
-func (v *VerifC35) State() string {
+func (v *VerifC35) State() string { return verifC35State(v.sc) }
+
+func verifC35State(sc *serverConn) string {
 	var ids []int
-	for id := range v.sc.streams {
+	for id := range sc.streams {
 		ids = append(ids, int(id))
 	}
 	sort.Ints(ids)
 	var parts []string
 	for _, id := range ids {
-		st := v.sc.streams[uint32(id)]
+		st := sc.streams[uint32(id)]
 		s := "?"
 		switch st.state {
 		case stateOpen:
@@ -519,7 +686,7 @@ func (v *VerifC35) State() string {
 		parts = append(parts, fmt.Sprintf("%d%s(%d)", id, s, st.flow.n))
 	}
 	var qids []int
-	for id, q := range v.sc.writeSched.sq {
+	for id, q := range sc.writeSched.sq {
 		if !q.empty() {
 			qids = append(qids, int(id))
 		}
@@ -527,9 +694,9 @@ func (v *VerifC35) State() string {
 	sort.Ints(qids)
 	var qs []string
 	for _, id := range qids {
-		qs = append(qs, fmt.Sprintf("%d=%d", id, len(v.sc.writeSched.sq[uint32(id)].s)))
+		qs = append(qs, fmt.Sprintf("%d=%d", id, len(sc.writeSched.sq[uint32(id)].s)))
 	}
-	return fmt.Sprintf("%d:%d:%d:%d:%s:q%s", v.sc.maxStreamID, v.sc.curOpenStreams, v.sc.flow.n, v.sc.initialWindowSize,
+	return fmt.Sprintf("%d:%d:%d:%d:%s:q%s", sc.maxStreamID, sc.curOpenStreams, sc.flow.n, sc.initialWindowSize,
 		strings.Join(parts, ","), strings.Join(qs, ","))
 }
 
@@ -544,4 +711,82 @@ func (v *VerifC35) Close() {
 		}
 	}
 	v.mu.Unlock()
+}
+
+// NewVerifC35Writer is a write-only scripted client: the same frame writers as VerifC35 (Headers kinds, Data,
+// Rst, Settings, Ping, ...), serialised to w (the client end of a real connection); nothing is processed here.
+func NewVerifC35Writer(w io.Writer) *VerifC35 {
+	v := &VerifC35{wonly: true}
+	v.cf = NewFramer(w, nil)
+	v.cf.AllowIllegalWrites = true
+	v.henc = hpack.NewEncoder(&v.hbuf)
+	return v
+}
+
+// ---- real serve loop (Server.ServeConn on a net.Conn): only the state query runs through a hook ----
+
+// VerifC35Real gives the harness race-free read access to the serverConn that the next ServeConn call creates:
+// queries are executed ON the serve goroutine through the existing testHookCh case of serverConn.serve.
+type VerifC35Real struct {
+	mu sync.Mutex
+	sc *serverConn
+}
+
+// NewVerifC35Real must be called before Server.ServeConn; it captures that call's serverConn.
+func NewVerifC35Real() *VerifC35Real {
+	r := &VerifC35Real{}
+	testHookGetServerConn = func(sc *serverConn) {
+		sc.testHookCh = make(chan func(int))
+		r.mu.Lock()
+		r.sc = sc
+		r.mu.Unlock()
+	}
+	return r
+}
+
+// onLoop runs f on the serve goroutine; false if the connection is gone (or was never captured).
+func (r *VerifC35Real) onLoop(f func(sc *serverConn)) bool {
+	r.mu.Lock()
+	sc := r.sc
+	r.mu.Unlock()
+	if sc == nil {
+		return false
+	}
+	done := make(chan struct{})
+	select {
+	case sc.testHookCh <- func(int) { f(sc); close(done) }:
+		<-done
+		return true
+	case <-sc.doneServing:
+		return false
+	case <-time.After(30 * time.Second):
+		return false
+	}
+}
+
+// State is VerifC35.State for the captured connection ("" if the serve loop has ended).
+func (r *VerifC35Real) State() string {
+	var s string
+	if !r.onLoop(func(sc *serverConn) { s = verifC35State(sc) }) {
+		return ""
+	}
+	return s
+}
+
+// Live reports whether stream id is in the connection's stream map.
+func (r *VerifC35Real) Live(id uint32) bool {
+	live := false
+	r.onLoop(func(sc *serverConn) { _, live = sc.streams[id] })
+	return live
+}
+
+// PendingWrites: frames handlers have handed over that the serve loop has not picked up yet.
+func (r *VerifC35Real) PendingWrites() int {
+	r.mu.Lock()
+	sc := r.sc
+	r.mu.Unlock()
+	if sc == nil {
+		return 0
+	}
+	return len(sc.wantWriteFrameCh)
 }
